@@ -27,6 +27,7 @@ class RNG:
         self.calls_in_job = 0
         self.seeded = []
         self.assume_nonzero_weight = True
+        self.private_generators = 0     # generators created beside the global state (np.random.default_rng(), RandomState() ...)
 
     def _reg(self, v):
         """numeric draws are inputs of the path: registered so that counterexample models prefer robust values"""
@@ -39,6 +40,20 @@ class RNG:
             self.calls_in_job += 1
         if len(self.log) >= self.max_draws:
             raise Cut("rng-draws>%d" % self.max_draws)
+
+    # a generator of its own (default_rng(), RandomState()): the draws are modelled by the same stub, but the creation is recorded -
+    # unless it is seeded from a draw of the global state, its output does not follow np.random.seed (C06 asks for that)
+    def default_rng(self, seed=None):
+        if seed is None:
+            self.private_generators += 1
+        return self
+
+    def RandomState(self, seed=None):
+        if seed is None:
+            self.private_generators += 1
+        return self
+
+    Generator = default_rng
 
     def normal(self, mu=0.0, sd=1.0, size=None):
         self._tick("normal")
